@@ -44,8 +44,15 @@ def real_snap(price, tick, is_buy):
 
 def gen_C19(rng, n):
     for i in range(n):
-        fam = rng.choice(["exact", "exact", "general", "general", "small", "huge"])
-        if fam == "exact":
+        fam = rng.choice(["exact", "exact", "general", "general", "small", "huge", "near"])
+        if fam == "near":
+            # exactly representable prices a hair off a grid line (2^-20 … 2^-44 away, either side):
+            # every float operation involved is exact, so the exact statement applies in full
+            fam = "exact"
+            tick = 2.0 ** rng.randint(-3, 1)
+            k = rng.randint(1, 60)
+            price = k * tick + rng.choice([-1, 1]) * 2.0 ** -rng.randint(20, 44)
+        elif fam == "exact":
             tick = 2.0 ** rng.randint(-6, 3)
             price = rng.randint(1, 1 << 16) * 2.0 ** rng.randint(-9, 2)
         elif fam == "general":
@@ -181,8 +188,31 @@ def run_C17(ctx, model_available=True):
             s["withOrderExecution"] = rng.random() < 0.85
             s["maxNormalOrders"] = max(2, s["maxNormalOrders"])
         seed = rng.randint(0, 2 ** 31)
+        malformed = None
+        if i % 5 == 4:
+            # malformed stream: a component listed twice / a component that declares no outstanding
+            # shares — must be refused (or at least never be counted twice)
+            comps_cfg = cfg["IDX"]["markets"]
+            if rng.random() < 0.7:
+                comps_cfg.insert(rng.randint(0, len(comps_cfg)), rng.choice(comps_cfg))
+                malformed = "duplicate-component"
+            else:
+                cfg[comps_cfg[0]].pop("outstandingShares", None)
+                malformed = "component-without-shares"
+            dist.setdefault("malformed", {}).setdefault(malformed, 0)
+            dist["malformed"][malformed] += 1
         inp = {"kind": "simulation", "config": cfg, "seed": seed}
         run = rc.run_sim(cfg, seed)
+        if malformed is not None and (run.sim is None or run.error is not None):
+            seen.add(digest([cfg, seed]))
+            checks += 1
+            continue            # refused, as it must be
+        if malformed is not None:
+            checks += 1
+            violations.append(viol("C17", "C17/malformed-components-accepted:" + malformed,
+                                   "components must be distinct markets that declare outstanding shares",
+                                   {"components": cfg["IDX"]["markets"]}, inp))
+            continue
         if run.sim is None or run.error is not None:
             violations.append(viol("C17", "C17/run-raised:" + (run.error[0] if run.error else "?"), "index runs complete",
                                    {"error": run.error and run.error[:3]}, inp))
@@ -232,6 +262,41 @@ def run_C17(ctx, model_available=True):
         if len(samples) < 2 and idx:
             samples.append({"markets": cfg["simulation"]["markets"], "shares": [c.outstanding_shares for c in idx[0].get_components()], "seed": seed,
                             "index_last": idx[0].get_index()})
+    # "at any time": queries repeated within one step while component prices move, and across steps
+    import agents_props as ap
+    for i in range(n):
+        k = rng.choice([2, 3, 4])
+        sim, mks, im = ap.mk_world(rng, k, index=True, equal_shares=rng.random() < 0.2)
+        shares = [c.outstanding_shares for c in mks]
+        script = []
+        for j in range(rng.randint(4, 12)):
+            r = rng.random()
+            if r < 0.6:
+                c = rng.randrange(k)
+                px = round(rng.uniform(250, 350), 2)
+                ap.trade(mks[c], px)
+                script.append(["trade", c, px])
+            elif r < 0.75:
+                sim._update_times_on_markets(sim.markets)
+                script.append(["tick"])
+            else:
+                script.append(["query"])
+            mp = [c.get_market_price() for c in mks]
+            want = sum(Fraction(p) * sh for p, sh in zip(mp, shares)) / sum(shares)
+            checks += 1
+            dist["index_values_checked"] += 1
+            for name, got in (("index", im.get_index()), ("market_index", im.get_market_index()),
+                              ("compute_market_index", im.compute_market_index())):
+                if not math.isclose(got, float(want), rel_tol=1e-12):
+                    v = viol("C17", "C17/%s-not-share-weighted-average" % name,
+                             "index value / recorded fundamental = share-weighted average of the components' market / fundamental prices at that time",
+                             {"got": got, "expected": float(want), "prices": mp, "shares": shares, "after": list(script)},
+                             {"kind": "index-script", "n": k, "shares": shares, "script": list(script)})
+                    if not any(x["signature"] == v["signature"] for x in violations):
+                        violations.append(v)
+            lines.append("index %d %s" % (k, " ".join("%s %d" % (fbits(p), sh) for p, sh in zip(mp, shares))))
+            expect.append((im.get_index(), {"prices": mp, "shares": shares, "script": list(script)}))
+        seen.add(digest(["script", shares, script]))
     compared = 0
     if model_available and lines:
         out, err, dt = LeanDriver("Pure").run(lines)
@@ -244,7 +309,7 @@ def run_C17(ctx, model_available=True):
                 if model != got:
                     diffs.append({"channel": "index.value", "model": model, "impl": got, "input": inp})
     return {"evaluations": len(seen), "distinct_nontrivial": len(nontriv),
-            "rule": "random runs with an index market over 2-5 component markets with random (mostly unequal) outstanding shares, optional extra market after the index; every time step of every run is checked against exact rational weighted averages; non-trivial = run with unequal shares",
+            "rule": "index markets driven directly through the market API: component prices moved by trades, the index queried after every move, several times within one step and across steps; one run in five with a malformed component list (duplicate / no outstanding shares) that must be refused; random runs with an index market over 2-5 component markets with random (mostly unequal) outstanding shares, optional extra market after the index; every time step of every run is checked against exact rational weighted averages; non-trivial = run with unequal shares",
             "samples": samples, "violations": violations, "diffs": diffs[:30],
             "comparisons": {"index_values_compared_bitwise": compared}, "traces_validated": compared,
             "distribution": dist, "monitor_checks": checks}
@@ -253,6 +318,26 @@ def run_C17(ctx, model_available=True):
 def replay_C17(obj):
     import runner_checks as rc
     inp = obj["input"]
+    if inp.get("kind") == "index-script":
+        import agents_props as ap
+        rng = random.Random(0)
+        sim, mks, im = ap.mk_world(rng, inp["n"], index=True, equal_shares=len(set(inp["shares"])) == 1)
+        shares = [c.outstanding_shares for c in mks]
+        out = []
+        for st in inp["script"]:
+            if st[0] == "trade":
+                ap.trade(mks[st[1]], st[2])
+            elif st[0] == "tick":
+                sim._update_times_on_markets(sim.markets)
+            want = sum(Fraction(c.get_market_price()) * sh for c, sh in zip(mks, shares)) / sum(shares)
+            for name, got in (("index", im.get_index()), ("market_index", im.get_market_index())):
+                if not math.isclose(got, float(want), rel_tol=1e-12):
+                    out.append({"signature": "C17/%s-not-share-weighted-average" % name, "observed": {"got": got, "expected": float(want)}})
+        return {"violations": out[:3]}
+    if "malformed-components-accepted" in obj.get("signature", ""):
+        run = rc.run_sim(inp["config"], inp["seed"])
+        ok = run.sim is None or run.error is not None
+        return {"violations": [] if ok else [{"signature": obj["signature"], "observed": {"accepted": True}}]}
     run = rc.run_sim(inp["config"], inp["seed"])
     out = []
     for im in [m for m in run.sim.markets if isinstance(m, IndexMarket)]:
